@@ -73,11 +73,15 @@ class C02(Prop):
     id = "C02"
     anchored = ["src/pewlib/io/agilent.py"]
     cases = {"quick": 300, "thorough": 30000}
-    rule = ("synthetic .b batches written with the fixture layouts: 1..5 lines, 2..6 scans, 1..4 masses, MS / MS with XAddition / MS_MS "
-            "(incl. product order != precursor order), every subset of {BatchLog.xml, BatchLog.csv, AcqMethod.xml, MSTS_XAddition.xml}, "
-            "data-file names of mixed digit widths, prefixes and .d/.D, shuffled directory listing (iterdir patched), logs with Fail/Abort/-/Skip, "
-            "repeated Pass entries, unlogged directories, logged-but-missing files, four path styles, XML entries without file name, plain files "
-            "that look like data directories, per-line CSV all/some/none (CRLF or LF, 4 footer shapes, 0..3 decimals), unreadable binaries "
+    rule = ("synthetic .b batches written with the fixture layouts: 1..5 lines, 2..6 scans, 1..4 masses (one batch in twenty: up to 16 lines, "
+            "40 scans, 60 masses), MS / MS with XAddition / MS_MS (incl. product order != precursor order, transitions sharing a product or "
+            "a precursor m/z, the method file listing them in any order), every subset of {BatchLog.xml, BatchLog.csv, AcqMethod.xml, MSTS_XAddition.xml}, "
+            "data-file names of mixed digit widths, prefixes and .d/.D, numbers beyond 2**53 that differ in the low digits only (a common stamp "
+            "+ counter), independent numbers of 1..25 digits, 17..22 digits with leading zeros, several digit groups in one name, non-ASCII "
+            "letters; shuffled directory listing (iterdir patched), logs with Fail/Abort/-/Skip (first, last, before every pass, all but one), "
+            "repeated Pass entries (a line acquired three times), unlogged directories, logged-but-missing files, four path styles, XML entries without file name, plain files "
+            "that look like data directories, per-line CSV all/some/none/all but the first line/all but the last/a single one (CRLF or LF, 4 footer shapes, 0..8 decimals), "
+            "regular and irregular scan times, unreadable binaries "
             "(CSV fallback of load), bit-pattern values (NaN payloads, infinities, -0.0) or count values (exact rationals for counts/second); "
             "outside the theorems' hypotheses, compared mechanism-vs-pewlib only (counted as hypothesis_excluded): scan records whose "
             "SpectrumOffset/ByteCount leave the instrument layout (beyond the profile: clip; below the header: negative index, wrap or IndexError; "
@@ -90,7 +94,14 @@ class C02(Prop):
             "pathlib.Path or a str (collect_datafiles too), compared with the Lean entry-point models loadBinaryCall / loadCsvCall / load (image, "
             "return shape, times and scan time when full); 3 targeted batches (counts; MS/MS counts with an unreadable binary = CSV fallback; bit "
             "patterns) run the whole option grid (18 + 18 + 54 tuples); "
-            "96 targeted small batches (all 16 metadata subsets x sizes 1/2) + the minimal inputs of the two repaired defects + 17 off-hypothesis batches; "
+            "HISTORIES (18% of the generated cases + 25 targeted): two or three batches written one after the other at the SAME path and "
+            "imported in one process — an unrelated batch under the same data-file names, the same shape with other masses of equal text length "
+            "and other values (every file keeps its size), the same masses with other values, another number of masses / lines / scans, the same "
+            "files logged in the opposite order, the very same batch again through other calls, MS/MS replaced by single quad and back — with "
+            "every modification time set to one fixed instant or left alone, the caller overwriting every returned array / list / params dict "
+            "between the calls (also in half of the ordinary cases); each import of each step is compared with the Lean model and specification "
+            "of the batch as it is on disk at that call (Lean `process`, theorem `process_eq_spec`); "
+            "25 targeted batches of the name styles, MS/MS ties, log shapes, export patterns, 60 masses; 96 targeted small batches (all 16 metadata subsets x sizes 1/2) + the minimal inputs of the two repaired defects + 17 off-hypothesis batches; "
             "non-trivial = reaches a named size/order/log/metadata/CSV boundary class; distinct by canonical case hash")
     trusted = [
         "xml.etree.ElementTree, np.genfromtxt (field splitting, name validation with deletechars='', correctly rounded decimal->float64), "
@@ -102,8 +113,10 @@ class C02(Prop):
         "Python's list.sort/sorted are stable sorts (modelled by List.mergeSort); str.rfind, str.isdigit on ASCII names",
     ]
     assumptions = [
-        "data-file names are ASCII without separator and comma, and those containing digits carry pairwise distinct numbers (ties are listing-order "
-        "dependent and not generated); a data directory without any digit makes the directory scan raise (modelled, generated)",
+        "data-file names hold no separator, no comma and no digit outside ASCII (str.isdigit / int() of other Unicode digits is not modelled), and "
+        "those containing digits carry pairwise distinct numbers (ties are listing-order dependent and not generated); BatchLog.xml and "
+        "BatchLog.csv of a batch hold the same log (two logs that disagree are not a batch an instrument writes; which of them 'the batch log' "
+        "is would be left to the order of collection_methods — not generated); a data directory without any digit makes the directory scan raise (modelled, generated)",
         "result texts are at most 5 characters and never merely start with 'Pass' (the U4 column of the CSV reader truncates)",
         "CSV fields are plain decimals; element names are distinct; every data file of a batch carries the same mass table; the first CSV column is "
         "'Time [Sec]' (other header layouts are not modelled)",
@@ -114,6 +127,9 @@ class C02(Prop):
         "imported float64 values) exactly when the exact values of the batch satisfy Lean `agree` with `printSlack` (theorem `agree_transfer`; "
         "float64 division and decimal->binary conversion correctly rounded)",
         "exception classes are not compared (raised vs returned only)",
+        "histories: a history has its own directory (named by the hash of the case), so its verdict does not depend on what the worker process "
+        "imported before; what the caller does to returned objects is: overwrite arrays in place, empty the params dict, reverse and extend "
+        "the returned list (objects that refuse are left alone: the property does not demand writable results)",
         "call options: drop_names is left at its default in every call (the property does not say what an image with a kept time column or a "
         "dropped element is); an omitted option is modelled by the default of the current signature; counts_per_second=True is only called on "
         "count-valued batches (bit-pattern batches hold NaNs/infinities that the exact division of the model does not describe)",
@@ -126,9 +142,9 @@ class C02(Prop):
         """n distinct data-directory names whose numbers (= all ASCII digits of the name, concatenated) are pairwise distinct;
         `pool`: names to use first (the data directories of an earlier batch at the same path).  Styles: `classic` mixed
         widths / prefixes / .d .D; `long` a common stamp of 13..20 digits followed by a short counter (numbers beyond 2**53,
-        differing in the low digits only); `long0` 17..22 digits with leading zeros; `groups` several digit groups in one
+        differing in the low digits only); `wide` independent numbers of 1..25 digits; `long0` 17..22 digits with leading zeros; `groups` several digit groups in one
         name (r2_10.d -> 210); `unicode` non-ASCII letters (no non-ASCII digits) in the prefix"""
-        style = style or rng.choice(["classic"] * 7 + ["long", "long0", "groups", "unicode"])
+        style = style or rng.choice(["classic"] * 7 + ["long", "long0", "wide", "groups", "unicode"])
         names, nums = [], set()
         for nm in pool:
             if len(names) < n and digits(nm) >= 0 and digits(nm) not in nums and nm not in names:
@@ -144,6 +160,8 @@ class C02(Prop):
             ext = rng.choice([".d", ".d", ".d", ".d", ".D"])
             if style == "long":
                 nm = f"{rng.choice(['', 'line', 'L'])}{stamp}{num % 10 ** cw:0{cw}d}{ext}"
+            elif style == "wide":   # independent numbers of 1..25 digits: they differ in the HIGH digits
+                nm = f"{prefix}{rng.choice('123456789')}{''.join(rng.choice('0123456789') for _ in range(rng.choice([0, 3, 9, 12, 16, 19, 24])))}{ext}"
             elif style == "long0":
                 nm = f"{prefix}{num:0{rng.choice([17, 19, 22])}d}{ext}"
             elif style == "groups":
@@ -274,6 +292,42 @@ class C02(Prop):
         stamps = stamps or [rng.choice(["preserved", "preserved", "fresh"]) for _ in steps]
         return {"kind": "history", "steps": steps, "kinds": list(kinds), "stamps": stamps,
                 "edit": (rng.random() < 0.6 or "same" in kinds) if edit is None else edit}
+
+    def class_cases(self):
+        """one or two batches of every name style, MS/MS tie, log shape, export-presence pattern and time style, so that
+        reaching those classes does not depend on the seed"""
+        import random
+        i = 0
+        common = dict(odd=None, badindex=False, nodigit=False, large=False, missing=False)
+        for style in ("long", "long0", "wide", "groups", "unicode"):
+            for methods, dirty in ((["alphabetical"], False), (["batch_csv", "batch_xml", "alphabetical"], True)):
+                rng = random.Random(f"C02-class-{i}")
+                i += 1
+                yield self.build(rng, n=4, k=1 + i % 2, R=2, name_style=style, methods=methods, dirty=dirty, has_xml=dirty, has_csv=dirty,
+                                 has_acq=False, **common)
+        for tie in ("product", "precursor"):
+            for methods in (["batch_xml"], ["acq_method_xml", "alphabetical"]):
+                rng = random.Random(f"C02-class-{i}")
+                i += 1
+                c = self.build(rng, n=2, k=3, R=3, mode="counts", msms=True, tie=tie, has_xml=True, has_acq=True, dirty=False,
+                               csv_mode="all", methods=methods, **common)
+                c["use_acq"] = True
+                c["calls"] = [self.call("load_csv", methods=methods, full=True), self.call("load_csv", methods=methods, use_acq=False),
+                              self.call("load_binary", methods=methods, cps=True)]
+                yield c
+        for log_style in ("fail-first", "fail-last", "triple", "many-fail"):
+            rng = random.Random(f"C02-class-{i}")
+            i += 1
+            yield self.build(rng, n=3, k=2, R=2, dirty=True, log_style=log_style, has_xml=True, has_csv=True,
+                             methods=[["batch_xml", "batch_csv"], ["batch_csv", "batch_xml"]][i % 2], **common)
+        for csv_mode in ("first-missing", "last-missing", "one-present", "none"):
+            rng = random.Random(f"C02-class-{i}")
+            i += 1
+            yield self.build(rng, n=3, k=2, R=3, mode="counts", dirty=False, has_xml=True, csv_mode=csv_mode, methods=["batch_xml"],
+                             time_style="irregular", decimals=[4, 6, 8, 0][i % 4], **common)
+        rng = random.Random(f"C02-class-{i}")
+        yield self.build(rng, n=2, k=60, R=7, mode="counts", large=True, dirty=False, has_xml=True, csv_mode="all", methods=["batch_xml"],
+                         odd=None, badindex=False, nodigit=False, missing=False)
 
     def history_cases(self):
         """every kind of rewrite, with the modification times preserved and not, with and without the caller's edits"""
@@ -684,6 +738,7 @@ class C02(Prop):
         yield from self.odd_cases()
         yield from self.grid_cases()
         yield from self.history_cases()
+        yield from self.class_cases()
         # every subset of the optional metadata files x smallest sizes (1 and 2 lines / masses, 2 scans), MS and MS/MS
         i = 0
         for has_xml, has_csv, has_acq, has_xadd in itertools.product([False, True], repeat=4):
